@@ -267,6 +267,9 @@ def q1_rules(ctx, w, S, R, rf):
     for fn in sorted(set(counters)):
         for (pt, cdef, u) in E.closure_creations.get(fn, []):
             loc_calls = sorted({cs.callee for cs in E.call_sites(cdef) if cs.local})
+            sig = repr((w.facts.fns.get(cdef) or {}).get("inputs")) + repr([l_.get("ty") for l_ in (w.bodies[cdef].j.get("locals") or [])][:4]) if cdef in w.bodies else ""
+            if not loc_calls and "cell::Cell" not in sig:
+                continue          # a closure over indices / counts (`map_or(0, |i| i + 1)`), not a predicate on cells
             ctx.check(loc_calls == [cd], "Q1b", "%s:predicate" % fn, "%s decides droppable cells through %s; a painted blank (non-default pen) is content and must not be dropped: the predicate must be Cell::is_default" % (fn, loc_calls),
                       loc=w.fn_loc(fn), sample={"fn": fn, "predicate_calls": loc_calls})
     cell_fields = [f["name"] for f in w.facts.struct_fields("cell::Cell") or []]
